@@ -762,7 +762,7 @@ class C15(FaultMonitorMixin, BaseMonitor):
                     "reuse": self.k.chance(0.5, "reuse-old-object", op.get("i"))}
         if op["op"] == "compound" and op.get("tag", "").startswith("create_then_list_"):
             # the failing part is the in-place list edit: the previous list is assigned back
-            return {"op": "set", "revert": True, "obj": op["obj"], "attr": op["attr"],
+            return {"op": "set", "revert": True, "obj": op["obj"], "attr": op["attr"], "after_list_edit": True,
                     "value": copy.deepcopy(spec["objs"][op["obj"]]["attrs"][op["attr"]]), "src": None}
         return None
 
@@ -770,17 +770,23 @@ class C15(FaultMonitorMixin, BaseMonitor):
         r = self.k.rng("op", i)
         spec = self.sim.spec
         if self.broken:
-            if not self.recovering and self.extra_while_broken < 3 and r.random() < 0.45:
+            # (a failed in-place list edit is recovered from at once, and is not stacked on other failures: the job it
+            # lists stays linked to its server whatever happens to the list, and what the oracle may then expect from
+            # re-assignments made in another order has not been established)
+            after_list_edit = any(b[0].get("after_list_edit") for b in self.broken)
+            if not self.recovering and not after_list_edit and self.extra_while_broken < 3 and r.random() < 0.45:
                 self.extra_while_broken += 1
                 if r.random() < 0.5:
                     cands = faults.failing_edits(self.sim, r)
-                    cands = [c for c in cands if self.revert_key(c) not in {self.revert_key(b[0]) for b in self.broken}]
+                    cands = [c for c in cands if self.revert_key(c) not in {self.revert_key(b[0]) for b in self.broken}
+                             and self.live_in_system(c) and c["op"] != "compound"]
                     if cands:
                         op = r.choice(cands)
                         op["i"] = i
                         return op
                 op = opgen.gen_numeric(r, spec, self.cfg, set(S.closure(spec)), i)
-                if op is not None and self.revert_key(op) not in {self.revert_key(b[0]) for b in self.broken}:
+                if op is not None and self.revert_key(op) not in {self.revert_key(b[0]) for b in self.broken} \
+                        and self.live_in_system(op):
                     op["i"] = i
                     op["while_broken"] = True
                     return op
@@ -802,6 +808,17 @@ class C15(FaultMonitorMixin, BaseMonitor):
         mix = [(opgen.gen_numeric, 40), (opgen.gen_categorical, 8), (opgen.gen_hourly, 8), (opgen.gen_link, 10),
                (opgen.gen_list_assign, 8), (opgen.gen_list_op, 8), (opgen.gen_group, 5), (opgen.gen_add_job, 4)]
         return opgen.gen_edit(r, spec, self.cfg, i, mix=mix, focus=getattr(self, 'focus', None))
+
+    def live_in_system(self, op):
+        """While a failed link / list edit is installed the description still holds the previous links: an object it
+        lists inside the system may be outside at the moment. An edit of such an object is accepted whatever its
+        value and can make the re-assignment of the previous links fail for its own reasons, so it is not generated."""
+        names_ = [ch["obj"] for ch in op["changes"]] if op["op"] == "group" else \
+            [st["obj"] for st in op.get("steps", []) if "obj" in st] if op["op"] == "compound" else [op.get("obj")]
+        try:
+            return all(n in self.sim.world.objs and bool(self.sim.world.objs[n].systems) for n in names_ if n)
+        except Exception:
+            return False
 
     @staticmethod
     def revert_key(op):
@@ -839,11 +856,17 @@ class C15(FaultMonitorMixin, BaseMonitor):
                 self.broken.pop(idx) if idx < len(self.broken) else None
                 return "skip"
             self.res.count("revert_raised_while_others_broken" if len(self.broken) > 1 else "revert_raised")
+            earlier_revert_raised = getattr(self, "failed_revert_in_episode", False)
             self.failed_revert_in_episode = True
             self.attempts_without_progress = getattr(self, "attempts_without_progress", 0) + 1
             site = crash_site(ret) or type(ret).__name__
             if len(self.broken) == 1 or self.attempts_without_progress > 3 * len(self.broken) + 3:
                 oracle = "unrecoverable"
+                if earlier_revert_raised:
+                    # an earlier re-assignment of this episode raised (another failure was still installed): its value is
+                    # installed with stale dependents and cannot be assigned again (D17's mechanism); what those stale
+                    # values make fail later is the same finding, not a new one
+                    oracle = "unrecoverable_after_a_revert_that_raised"
                 culprit = crash_object(ret)
                 try:
                     if culprit is not None and not culprit.systems:
